@@ -1,5 +1,7 @@
 """C06 — get_block returns what was last stored at that index; caching is invisible."""
 import copy
+import os
+import tempfile
 import math
 from fractions import Fraction
 
@@ -44,9 +46,42 @@ def gen_history(rng, tier, collide_use=False):
     last_stored = {}
     prev_last = [0.0, 0.0, 0.0]
     kinds = []
+    foreign = False
     for _ in range(n_ops):
         ids = list(tw.on.block_events.keys())
         r = rng.random()
+        if foreign:
+            # after reading a file written on a different gradient raster only reads / duplicate removal / write follow
+            r = 0.5 + 0.45 * r if ids else 0.99
+        if ids and not foreign and rng.random() < 0.06:
+            # same events, different duration: warm the cache, overwrite block i with its own content passed by id
+            # (or a pure delay) plus a longer delay, read again
+            i = rng.choice(ids)
+            tw.get(i)
+            base = [e for e in last_stored.get(i, []) if getattr(e, 'type', None) in ('trap', 'adc', 'labelset', 'labelinc')]
+            evs = by_id(rng, tw, base, always=True) if (base and len(base) == len([e for e in last_stored.get(i, []) if getattr(e, 'type', None) != 'delay'])) else []
+            evs = evs + [__import__('pypulseq').make_delay(rng.choice([6e-3, 7e-3, 8e-3, 9e-3]))]
+            rec = tw.set(i, evs)
+            kinds.append('setdur')
+            if rec['outcome'][0] == 'ok':
+                last_stored[i] = evs
+                if list(tw.on.block_events.keys())[-1] == i:
+                    prev_last = ends_of(evs)
+            rec = tw.get(i)
+            if rec['outcome'][0] == 'ok' and i in last_stored:
+                d = content_matches(rec['outcome'][1], last_stored[i], tw.on)
+                if d:
+                    tw.twin_diffs.append({'op': len(tw.ops) - 1, 'kind': 'get', 'index': i,
+                                          'what': 'content differs from last stored: ' + d, 'class': 'content'})
+            continue
+        if not foreign and rng.random() < 0.012:
+            stored = read_foreign(rng, tw)
+            kinds.append('readforeign')
+            if stored is not None:
+                foreign = True
+                last_stored = stored
+                tw.on._pv_was_read = True
+            continue
         if r < 0.33 or not ids:
             evs = H.gen_block(rng, pool, prev_last, mostly_valid=rng.random() < 0.93)
             if rng.random() < 0.25:
@@ -133,12 +168,46 @@ def rf_use_shared(seq, i, block, evs):
     return getattr(block.rf, 'use', None) == USE_NAMES.get(t, 'undefined') and USE_NAMES.get(t, 'undefined') != stored_use
 
 
-def by_id(rng, tw, evs):
+def read_foreign(rng, tw):
+    """both twins read a file that another Sequence wrote on a DIFFERENT gradient raster (20 us vs the twins' 10 us);
+    returns {block id: events the writer stored} or None"""
+    import pypulseq as pp
+    r = 2e-5
+    sysb = pp.Opts(grad_raster_time=r, max_grad=1e12, max_slew=1e15)
+    fs = pp.Sequence(sysb)
+    stored = {}
+    for k in range(rng.randint(2, 5)):
+        kind = rng.choice(['trap', 'arb', 'ext', 'adc'])
+        if kind == 'trap':
+            evs = [pp.make_trapezoid(rng.choice('xyz'), amplitude=rng.choice([1e5, -2e5]), rise_time=2e-4, flat_time=rng.choice([4e-4, 1e-3]),
+                                     delay=rng.choice([0, 2e-4]), system=sysb)]
+        elif kind == 'arb':
+            n = rng.choice([6, 10, 16])
+            w = rng.choice([1e5, -5e4]) * np.sin(np.linspace(0, math.pi, n + 2)[1:-1])
+            evs = [pp.make_arbitrary_grad(rng.choice('xyz'), np.asarray(w, dtype=float), first=0.0, last=0.0, delay=rng.choice([0, 4e-5]), system=sysb)]
+        elif kind == 'ext':
+            evs = [pp.make_extended_trapezoid(rng.choice('xyz'), amplitudes=np.array([0, 1e5, 5e4, 0.0]),
+                                              times=np.array([0, 10, 25, 40]) * r, system=sysb)]
+        else:
+            evs = [pp.make_adc(32, dwell=1e-5, delay=1e-4, system=sysb), pp.make_delay(1e-3)]
+        fs.add_block(*evs)
+        stored[k + 1] = evs
+    with tempfile.TemporaryDirectory(prefix='pvC06f') as d:
+        fn = os.path.join(d, 'f.seq')
+        fs.write(fn, create_signature=False)
+        res = tw._both(lambda s: s.read(fn))
+    tw._record('read', 'load ' + sm.core_tokens(tw.on), res)
+    if res[0][0] != 'ok':
+        return None
+    return stored
+
+
+def by_id(rng, tw, evs, always=False):
     """pre-register some events and pass them by id (on both twins, recorded as register ops)"""
     out = []
     for e in evs:
         t = getattr(e, 'type', None)
-        if t in ('trap', 'adc', 'labelset', 'labelinc') and rng.random() < 0.6:
+        if t in ('trap', 'adc', 'labelset', 'labelinc') and (always or rng.random() < 0.6):
             rec = tw.register(e)
             if rec['outcome'][0] == 'ok':
                 e2 = copy.deepcopy(e)
